@@ -690,6 +690,18 @@ def deep_clone(value: Any) -> Any:
             # Regular list, deep copy
             return copy.deepcopy(value)
 
+    if hasattr(value, "propertySet"):
+        # A node of the project (e.g. the shift a resource group refers to) is shared
+        return value
+
+    if hasattr(value, "_hours") and hasattr(value, "_custom_hours_set"):
+        # WorkingHours: copy the table, keep the project reference.  copy.deepcopy would
+        # follow that reference and clone the entire project for each inheriting
+        # resource and scenario (minutes for a handful of tasks with five scenarios).
+        clone = copy.copy(value)
+        clone._hours = {day: list(intervals) for day, intervals in value._hours.items()}
+        return clone
+
     if hasattr(value, "_limits") and callable(getattr(value, "copy", None)):
         # A Limits collection knows how to copy itself (fresh counters, same project).
         # copy.deepcopy would follow its project reference and clone the entire project
